@@ -154,8 +154,9 @@ func (e *env) open() {
 		}
 		e.verifierOK[n] = o.VerifierOK
 		if o.KernelBPF && !o.VerifierOK {
-			fmt.Fprintln(os.Stderr, "c07 driver: the in-kernel verifier rejected "+n+".o:", o.LoadErr)
-			os.Exit(5)
+			// keep going natively: the guard-page runs will show the failing input, if there is one; the check
+			// reports the lost verifier acceptance by itself
+			fmt.Fprintln(os.Stderr, "c07 driver: the in-kernel verifier rejected "+n+".o:", firstLine(o.LoadErr))
 		}
 		if o.LoadErr != "" {
 			e.loadNotes = append(e.loadNotes, n+": "+o.LoadErr)
@@ -168,6 +169,13 @@ func (e *env) open() {
 		}
 		e.objs[n] = rt
 	}
+}
+
+func firstLine(s string) string {
+	if i := strings.IndexByte(s, '\n'); i >= 0 {
+		return s[:i]
+	}
+	return s
 }
 
 func (e *env) close() {
@@ -261,6 +269,19 @@ func coqBytes(b []byte) string {
 	return "(" + strings.Join(parts, " ++ ") + ")"
 }
 
+// coqBase writes a base frame; the tail that is just the padding pattern of pad() (byte i = i*7+1) is generated
+// inside Coq by PktCheck.padgen instead of being spelled out
+func coqBase(b []byte) string {
+	p := len(b)
+	for p > 0 && b[p-1] == byte((p-1)*7+1) {
+		p--
+	}
+	if len(b)-p < 64 {
+		return coqBytes(b)
+	}
+	return fmt.Sprintf("(%s ++ padgen %d %d)", coqBytes(b[:p]), p, len(b)-p)
+}
+
 func coqMaps(rt *objrt, ents []Ent) string {
 	var items []string
 	for _, m := range rt.maps {
@@ -327,7 +348,7 @@ func (e *env) runGroup(g group, out *[]vh.Case, gid int) {
 	}
 	mname := fmt.Sprintf("m_%d", gid)
 	bname := fmt.Sprintf("b_%d", gid)
-	defs := []vh.Def{{Name: mname, Type: "list mapent", Body: coqMaps(rt, g.ents)}, {Name: bname, Type: "list N", Body: coqBytes(g.base)}}
+	defs := []vh.Def{{Name: mname, Type: "list mapent", Body: coqMaps(rt, g.ents)}, {Name: bname, Type: "list N", Body: coqBase(g.base)}}
 	dirty := false
 	asanOff := false
 	nAlign := 0
